@@ -25,6 +25,9 @@ def declare(c):
     c.rule('C06.R7', 'dispatch: a code is deferred exactly when an episode is open and it is configured; the mode applied is '
                      'the configured one; outside an episode configured codes pass through untouched', floor=3)
     c.rule('C06.R8', 'configured script lists are never returned or mutated (always copied into a fresh list)', floor=4)
+    c.rule('C06.R10', 'an episode ended by a disable @-command: whatever else matches the same @-command (a second disable, an '
+                      'enable), the exit sequence - deferred commands, exit script, re-synchronisation - is sent through the comm '
+                      'object exactly once and in order; nothing is sent when no episode is open', floor=20)
     c.rule('C06.R9', '_splitGcodeScript returns None or a non-empty list of non-empty lines', floor=2)
 
 
@@ -337,5 +340,8 @@ def run(ctx, tier):
     enter_rule(ctx, I)
     modes_rule(ctx, I)
     split_rule(ctx, I)
+    from .rules_c14 import at_rules
+    Iat = make_interp(ctx.model, unroll=3 if tier == 'thorough' else 2)
+    at_rules(ctx, Iat, dict((r, 'C06.R10') for r in ('C14.R0', 'C14.R2', 'C14.R4')))
     run_path_rules(ctx, __name__, 'alias_rule_paths', ['G0', 'G2', 'G10', 'G11', 'M999'], unroll=1)
     ctx.assume('episodes end only through exitExcludedRegion (C03.R6) or resetState (C10)')
